@@ -99,6 +99,31 @@ __CPROVER_ensures(KIND == 0 || KIND == 1 ? sign_(__CPROVER_return_value) == spec
 #define SN HN          /* both sides are full views here */
 void HARNESS(void) { MK_VIEW(a, HN) MK_VIEW(b, HN) ir_throw_allowed = 0; c_cmp(a, in_an, b, in_bn); CANARY(); }
 
+#elif defined(OP_compare_mix)
+/* the free relational operators between a StringView and a std::string (KIND 0) / a const char* (KIND 1), both argument
+ * orders (DIR), MIXOP 0 == 1 != 2 < 3 > 4 <= 5 >= : same truth value as comparing the two byte ranges as views */
+#if DIR == 0
+#define MIXC(a, an, b, bn) spec_compare(a, an, b, bn)
+#else
+#define MIXC(a, an, b, bn) spec_compare(b, bn, a, an)
+#endif
+_Bool c_cmp_mix(uint8_t* a, uint64_t an, uint8_t* b, uint64_t bn)
+__CPROVER_requires(an <= HN && bn <= HN)
+__CPROVER_assigns(ir_live_allocs)
+__CPROVER_ensures(__CPROVER_return_value == (MIXOP == 0 ? MIXC(a, an, b, bn) == 0 : MIXOP == 1 ? MIXC(a, an, b, bn) != 0 : MIXOP == 2 ? MIXC(a, an, b, bn) < 0 :
+                                             MIXOP == 3 ? MIXC(a, an, b, bn) > 0 : MIXOP == 4 ? MIXC(a, an, b, bn) <= 0 : MIXC(a, an, b, bn) >= 0))
+__CPROVER_ensures(ir_live_allocs == __CPROVER_old(ir_live_allocs))
+{
+#if KIND == 0
+  return w_sv_mix_str(MIXOP, DIR, a, an, b, bn);
+#else
+  return w_sv_mix_cstr(MIXOP, DIR, a, an, b);
+#endif
+}
+#undef SN
+#define SN HN
+void HARNESS(void) { MK_VIEW(a, HN) MK_VIEW(b, HN) ir_throw_allowed = 0; ir_live_allocs = 2; c_cmp_mix(a, in_an, b, in_bn); CANARY(); }
+
 #elif defined(OP_compare_sub)
 /* compare(pos1, n1, x [, pos2, n2]) = substr(pos1, n1).compare(x.substr(pos2, n2)); out_of_range iff pos1 > size (pos2 > x.size)
  * KIND 0: (pos1,n1,x)  1: (pos1,n1,x,pos2,n2)  2: (pos1,n1,const char*)  3: (pos1,n1,const char*,n2) */
